@@ -404,30 +404,34 @@ def Manager.sysFor (g : Manager) (bracket : Nat) : Nat × Nat :=
 def Manager.setSys (g : Manager) (i : Nat) (s : RungSys) : Manager :=
   { g with systems := g.systems.set i s }
 
-/-- `on_task_add`; returns first milestone of the list (its last element `[-1]`). -/
+/-- `rung_sys.on_task_add` (promotion systems record `_running[trial] = (milestone,
+resume_from)`; stopping systems: `pass`). -/
+def RungSys.taskAdd (s : RungSys) (pauseResume : Bool) (tid skip : Nat) (resume : Option (Nat × Nat)) :
+    Except Err RungSys :=
+  if pauseResume then
+    match resume with
+    | none => .ok { s with running := aset tid (s.firstMilestone skip, none) s.running }
+    | some mr =>
+      if ¬ (mr.2 < mr.1) then .error (.assertion "resume_from < milestone")
+      else .ok { s with running := aset tid (mr.1, some mr.2) s.running }
+  else .ok s
+
+/-- first milestone of the bracket: last element of `[max_t] ++ milestones` -/
+def RungSys.firstOfList (s : RungSys) (skip maxT : Nat) : Nat :=
+  match (s.milestones skip).getLast? with | some l => l | none => maxT
+
+/-- `on_task_add`; returns first milestone of the list (its last element `[-1]`).
+`resume = some (milestone, resume_from)` for a promoted trial. -/
 def Manager.taskAdd (g : Manager) (tid bracket : Nat) (resume : Option (Nat × Nat)) :
     Except Err (Manager × Nat) :=
-  let (si, skip) := g.sysFor bracket
-  match g.systems[si]? with
+  match g.systems[(g.sysFor bracket).1]? with
   | none => .error (.assertion "bracket index")
   | some s =>
-    let g1 := { g with taskInfo := aset tid bracket g.taskInfo }
-    -- `rung_sys.on_task_add` (promotion only; stopping: pass)
-    let s' : Except Err RungSys :=
-      if g.type.pauseResume then
-        match resume with
-        | none => .ok { s with running := aset tid (s.firstMilestone skip, none) s.running }
-        | some (milestone, resumeFrom) =>
-          if ¬ (resumeFrom < milestone) then .error (.assertion "resume_from < milestone")
-          else .ok { s with running := aset tid (milestone, some resumeFrom) s.running }
-      else .ok s
-    match s' with
+    match s.taskAdd g.type.pauseResume tid (g.sysFor bracket).2 resume with
     | .error e => .error e
     | .ok s' =>
-      let ms := s'.milestones skip
-      -- `milestones.insert(0, max_t)`; `[-1]` is the smallest milestone or `max_t`
-      let first := match ms.getLast? with | some l => l | none => g.maxT
-      .ok (g1.setSys si s', first)
+      .ok (({ g with taskInfo := aset tid bracket g.taskInfo } : Manager).setSys (g.sysFor bracket).1 s',
+           s'.firstOfList (g.sysFor bracket).2 g.maxT)
 
 /-- dispatch to the rung system of the scheduler type -/
 def Manager.sysReport (g : Manager) (s : RungSys) (tid r : Nat) (v : Rat) (skip : Nat) (hint : Bool)
@@ -478,15 +482,15 @@ def Manager.taskRemove (g : Manager) (tid : Nat) : Manager :=
 /-- `on_task_schedule` with the sampled bracket as input: `(promoted?, bracket, milestone)`. -/
 def Manager.taskSchedule (g : Manager) (bracket : Nat) (hint : Option Nat) :
     Except Err (Manager × Option SchedOut × Nat × Bool) :=
-  let (si, skip) := g.sysFor bracket
-  match g.systems[si]? with
+  match g.systems[(g.sysFor bracket).1]? with
   | none => .error (.assertion "bracket index")
   | some s =>
-    if ¬ g.type.pauseResume then .ok (g, none, s.firstMilestone skip, false) else
-      let res := s.promoSchedule g.type g.mode hint
-      match res.2.1 with
-      | some o => .ok (g.setSys si res.1, some o, o.milestone, res.2.2)
-      | none => .ok (g.setSys si res.1, none, s.firstMilestone skip, res.2.2)
+    if ¬ g.type.pauseResume then .ok (g, none, s.firstMilestone (g.sysFor bracket).2, false) else
+      match (s.promoSchedule g.type g.mode hint).2.1 with
+      | some o => .ok (g.setSys (g.sysFor bracket).1 (s.promoSchedule g.type g.mode hint).1, some o, o.milestone,
+                       (s.promoSchedule g.type g.mode hint).2.2)
+      | none => .ok (g.setSys (g.sysFor bracket).1 (s.promoSchedule g.type g.mode hint).1, none,
+                     s.firstMilestone (g.sysFor bracket).2, (s.promoSchedule g.type g.mode hint).2.2)
 
 /-! ### scheduler -/
 
@@ -527,39 +531,52 @@ deriving DecidableEq, Repr
 
 def rangeIncl (a b : Nat) : List Nat := (List.range (b + 1 - a)).map (· + a)
 
+/-- pending evaluations registered for a new trial (`_on_config_suggest`) -/
+def Sched.pendingNew (s : Sched) (first : Nat) : List Nat :=
+  match s.searcherData with
+  | .rungs => [first]
+  | _ => if s.pendingMyopic then [1] else rangeIncl 1 first
+
+/-- pending evaluations registered for a promoted trial (`_promote_trial`) -/
+def Sched.pendingResume (s : Sched) (o : SchedOut) : List Nat :=
+  match s.searcherData with
+  | .rungs => [o.milestone]
+  | _ => if s.pendingMyopic then [o.resumeFrom + 1] else rangeIncl (o.resumeFrom + 1) o.milestone
+
+/-- `_on_config_suggest`: a new trial is started (after `terminator.on_task_schedule`
+returned manager `g` and the first milestone). -/
+def Sched.suggestStart (s : Sched) (g : Manager) (newTid bracket milestone : Nat) (fr : Bool) :
+    Except Err (Sched × Suggestion × List SCall × Bool) :=
+  if (alookup newTid s.active).isSome then .error (.assertion "Trial already exists") else
+  match g.taskAdd newTid bracket none with
+  | .error e => .error e
+  | .ok res =>
+    .ok ({ s with mgr := res.1, active := aset newTid { bracket := bracket } s.active },
+         .start newTid bracket milestone, (s.pendingNew res.2).map (SCall.pending newTid), fr)
+
+/-- `_promote_trial` for a promoted trial `o`. -/
+def Sched.suggestResume (s : Sched) (g : Manager) (bracket : Nat) (o : SchedOut) (fr : Bool) :
+    Except Err (Sched × Suggestion × List SCall × Bool) :=
+  match g.taskAdd o.trial bracket (some (o.milestone, o.resumeFrom)) with
+  | .error e => .error e
+  | .ok res =>
+    match alookup o.trial s.active with
+    | none => .error (.assertion "Paused trial must be in _active_trials")
+    | some rec =>
+      if rec.decision = .continue then .error (.assertion "Paused trial marked as running") else
+      .ok ({ s with mgr := res.1, active := aset o.trial { rec with decision := .continue } s.active },
+           .resume o.trial o.resumeFrom o.milestone, (s.pendingResume o).map (SCall.pending o.trial), fr)
+
 /-- `_suggest` when the searcher returns a configuration (searcher exhaustion is outside
 this model). `newTid` is the id handed to `_suggest`. -/
 def Sched.suggest (s : Sched) (newTid bracket : Nat) (hint : Option Nat) :
     Except Err (Sched × Suggestion × List SCall × Bool) :=
   match s.mgr.taskSchedule bracket hint with
   | .error e => .error e
-  | .ok (g, so, milestone, fr) =>
-    match so with
-    | none =>
-      -- `_on_config_suggest`
-      if (alookup newTid s.active).isSome then .error (.assertion "Trial already exists") else
-      match g.taskAdd newTid bracket none with
-      | .error e => .error e
-      | .ok (g', first) =>
-        let pend := match s.searcherData with
-          | .rungs => [first]
-          | _ => if s.pendingMyopic then [1] else rangeIncl 1 first
-        .ok ({ s with mgr := g', active := aset newTid { bracket := bracket } s.active },
-             .start newTid bracket milestone, pend.map (SCall.pending newTid), fr)
-    | some o =>
-      match g.taskAdd o.trial bracket (some (o.milestone, o.resumeFrom)) with
-      | .error e => .error e
-      | .ok (g', _) =>
-        match alookup o.trial s.active with
-        | none => .error (.assertion "Paused trial must be in _active_trials")
-        | some rec =>
-          if rec.decision = .continue then .error (.assertion "Paused trial marked as running") else
-          let rec' := { rec with decision := .continue }
-          let pend := match s.searcherData with
-            | .rungs => [o.milestone]
-            | _ => if s.pendingMyopic then [o.resumeFrom + 1] else rangeIncl (o.resumeFrom + 1) o.milestone
-          .ok ({ s with mgr := g', active := aset o.trial rec' s.active },
-               .resume o.trial o.resumeFrom o.milestone, pend.map (SCall.pending o.trial), fr)
+  | .ok res =>
+    match res.2.1 with
+    | none => s.suggestStart res.1 newTid bracket res.2.2.1 res.2.2.2
+    | some o => s.suggestResume res.1 bracket o res.2.2.2
 
 /-- `_cleanup_trial`. -/
 def Sched.cleanup (s : Sched) (tid : Nat) (d : Decision) : Sched :=
